@@ -314,3 +314,6 @@ func TestC09(t *testing.T) {
 		}
 	})
 }
+
+// FuzzC09 is the native coverage-guided supplement of the generated part (thorough tier only).
+func FuzzC09(f *testing.F) { fuzzProperty(f, TestC09) }
